@@ -1055,8 +1055,10 @@ def _val_to_numpy(
     if is_chunked:
         # nulls cannot be represented without a copy: they become NaN / NaT
         has_nulls = arrow.null_count > 0
+        # arrow booleans are bit-packed: they cannot be viewed as numpy bools either
+        needs_copy = has_nulls or pa.types.is_boolean(arrow.type)
         val_list = [
-            chunk.to_numpy(zero_copy_only=not has_nulls) for chunk in arrow.chunks
+            chunk.to_numpy(zero_copy_only=not needs_copy) for chunk in arrow.chunks
         ]
         if has_nulls and len(val_list) > 1:
             # e.g. integer chunks turn into float only where they hold a null
@@ -1064,7 +1066,8 @@ def _val_to_numpy(
             # copies throughout: numba needs chunks of one type (also same writability)
             val_list = [np.array(v, dtype=common_type) for v in val_list]
     elif isinstance(val, pa.Array):
-        val_list = [val.to_numpy(zero_copy_only=val.null_count == 0)]
+        needs_copy = val.null_count > 0 or pa.types.is_boolean(val.type)
+        val_list = [val.to_numpy(zero_copy_only=not needs_copy)]
     elif hasattr(val, "to_numpy"):
         val_list = [val.to_numpy()]  # type: ignore
     else:
